@@ -110,7 +110,7 @@ def run_case(ctx, i, rng):
         ctx.nontrivial(gen.fingerprint({"spec": spec, "mode": "nofix", "ffp": ffp}))
         return
     if mode == 0:
-        spec, labels = gen.cluster_graph(rng, alias=bool(rng.random() < 0.4))
+        spec, labels = gen.cluster_graph(rng, alias=bool(rng.random() < 0.4), size=((30, 60) if rng.random() < 0.03 else (2, 6)))
         if "shared_pose_storage" in labels:
             ctx.count("class:shared_pose_storage")
         sub = int(rng.integers(0, 4))
